@@ -40,12 +40,10 @@ theorem secOK_init : SecOK Sec.init := ⟨by simp [Sec.init], by simp [Sec.init]
   unfold push; split <;> rfl
 
 @[simp] theorem handleRejects_sec (s : State) (o : UInt8) (b : Bytes) : (handleRejects s o b).sec = s.sec := by
-  unfold handleRejects; simp only []; repeat' split
-  all_goals simp
+  unfold handleRejects endsProcedure; rw [push_sec]; split <;> rfl
 @[simp] theorem handleRejects_phase (s : State) (o : UInt8) (b : Bytes) :
     (handleRejects s o b).phase = s.phase := by
-  unfold handleRejects; simp only []; repeat' split
-  all_goals simp
+  unfold handleRejects endsProcedure; rw [push_phase]; split <;> rfl
 
 /-- what `handle_encryption_pdus` does to the security state -/
 theorem handleEncryptionPdus_ok (s : State) (o : UInt8) (n : Nat) (b : Bytes) (s' : State) (r : Option Pdu)
@@ -96,28 +94,9 @@ theorem handlePhyRequest_same (s : State) (p : Pdu) (o : UInt8) (n : Nat) (s' : 
   all_goals (try (obtain ⟨rfl, -⟩ := h))
   all_goals simp
 
-theorem handleControl_ok (s : State) (p : Pdu) (hok : SecOK s.sec) :
-    SecOK (handleControl s p).1.sec ∧ (handleControl s p).1.phase = s.phase := by
-  unfold handleControl
-  simp only []
-  split
-  · split <;> exact ⟨hok, rfl⟩
-  split
-  · exact ⟨hok, rfl⟩
-  split
-  · refine ⟨?_, ?_⟩
-    · simp only [commit_sec]; split <;> simpa using hok
-    · simp only [commit_phase]; split <;> simp
-  split
-  · split <;> exact ⟨hok, rfl⟩
-  split
-  · simpa using hok
-  split
-  · simpa using hok
-  split
-  · simpa using hok
-  split
-  · simpa using hok
+theorem ctlOther_ok (s : State) (p : Pdu) (o : UInt8) (n : Nat) (hok : SecOK s.sec) :
+    SecOK (ctlOther s p o n).1.sec ∧ (ctlOther s p o n).1.phase = s.phase := by
+  unfold ctlOther
   split
   · rename_i s' rsp h
     have := handleEncryptionPdus_ok _ _ _ _ _ _ h hok
@@ -134,6 +113,27 @@ theorem handleControl_ok (s : State) (p : Pdu) (hok : SecOK s.sec) :
     · split
       · simpa using hok
       · exact ⟨hok, rfl⟩
+
+theorem handleControl_ok (s : State) (p : Pdu) (hok : SecOK s.sec) :
+    SecOK (handleControl s p).1.sec ∧ (handleControl s p).1.phase = s.phase := by
+  unfold handleControl handleControlAux
+  split
+  · unfold ctlConnectionUpdate; split <;> exact ⟨hok, rfl⟩
+  split
+  · exact ⟨hok, rfl⟩
+  split
+  · unfold ctlVersion; simpa using hok
+  split
+  · unfold ctlChannelMap; split <;> exact ⟨hok, rfl⟩
+  split
+  · simpa using hok
+  split
+  · unfold ctlFeature; simpa using hok
+  split
+  · simpa using hok
+  split
+  · simpa using hok
+  · exact ctlOther_ok _ _ _ _ hok
 
 @[simp] theorem l2capInput_sec (s : State) (b : Bytes) : (l2capInput s b).sec = s.sec := by
   unfold l2capInput; repeat' split
@@ -191,14 +191,43 @@ theorem transmitPendingSecurity_ok (s : State) (h : SecOK s.sec) :
       exact ⟨by simpa using hg hc.2 hk, by simp⟩
     · exact ⟨⟨by simpa using he, by simpa using hp, by simp⟩, by simp⟩
 
+theorem applyDeferred_sec (s : State) (p : Pdu) : (applyDeferred s p).1.sec = s.sec := by
+  unfold applyDeferred
+  split
+  · rfl
+  split
+  · split
+    · simp
+    · rfl
+  · simp
+
+theorem applyDeferred_phase (s : State) (p : Pdu) (h : s.phase ≠ .advertising) :
+    (applyDeferred s p).1.phase ≠ .advertising := by
+  unfold applyDeferred
+  split
+  · exact h
+  split
+  · split
+    · simp
+    · exact h
+  · simpa using h
+
 theorem handlePending_sec (s : State) : (handlePending s).1.sec = s.sec := by
-  unfold handlePending; repeat' split
-  all_goals simp
+  unfold handlePending
+  split
+  · rfl
+  · split
+    · rfl
+    · exact applyDeferred_sec _ _
 
 theorem handlePending_phase (s : State) (h : s.phase ≠ .advertising) :
     (handlePending s).1.phase ≠ .advertising := by
-  unfold handlePending; repeat' split
-  all_goals simp [h]
+  unfold handlePending
+  split
+  · exact h
+  · split
+    · exact h
+    · exact applyDeferred_phase _ _ h
 
 @[simp] theorem transmitPendingControl_sec (s : State) : (transmitPendingControl s).sec = s.sec := by
   unfold transmitPendingControl; repeat' split
@@ -208,9 +237,8 @@ theorem handlePending_phase (s : State) (h : s.phase ≠ .advertising) :
   all_goals simp
 
 theorem forceDisconnect_sec (s : State) : (forceDisconnect s).sec = Sec.init := by
-  unfold forceDisconnect resetEncryption; simp only []; split <;> simp
-theorem forceDisconnect_phase (s : State) : (forceDisconnect s).phase = .advertising := by
-  unfold forceDisconnect; rfl
+  unfold forceDisconnect resetEncryption; simp
+theorem forceDisconnect_phase (s : State) : (forceDisconnect s).phase = .advertising := rfl
 
 theorem forceDisconnect_inv (s : State) : Inv (forceDisconnect s) :=
   ⟨by rw [forceDisconnect_sec]; exact secOK_init, fun _ => forceDisconnect_sec s⟩
@@ -218,68 +246,82 @@ theorem forceDisconnect_inv (s : State) : Inv (forceDisconnect s) :=
 theorem inv_of (s : State) (h : SecOK s.sec) (hp : s.phase ≠ .advertising) : Inv s :=
   ⟨h, fun e => absurd e hp⟩
 
-theorem endEvent_inv (s : State) (h : SecOK s.sec) (hp : s.phase ≠ .advertising) : Inv (endEvent s) := by
-  unfold endEvent
+theorem endEventPlan_inv (s : State) (h : SecOK s.sec) (hp : s.phase ≠ .advertising) :
+    Inv (endEventPlan s) := by
+  unfold endEventPlan
+  have hs := handlePending_sec { s with evCounter := s.evCounter + 1, timeSince := s.interval }
+  have hph := handlePending_phase { s with evCounter := s.evCounter + 1, timeSince := s.interval } hp
+  split
+  · exact forceDisconnect_inv _
+  · rename_i s' heq
+    rw [heq] at hs hph
+    simp only at hs hph
+    split
+    · exact inv_of _ (by simpa [hs] using h) (by simpa using hph)
+    · exact inv_of _ (by rw [hs]; exact h) hph
+
+theorem decTimeout_sec (s : State) : (decTimeout s).sec = s.sec ∧ (decTimeout s).phase = s.phase := by
+  unfold decTimeout; split <;> exact ⟨rfl, rfl⟩
+
+theorem endEventTail_inv (s : State) (h : SecOK s.sec) (hp : s.phase ≠ .advertising) :
+    Inv (endEventTail s) := by
+  unfold endEventTail
+  split
+  · exact forceDisconnect_inv _
+  · have hd := decTimeout_sec s
+    have ht := transmitPendingSecurity_ok (decTimeout s) (by rw [hd.1]; exact h)
+    exact endEventPlan_inv _ ht.1 (by rw [ht.2, hd.2]; exact hp)
+
+theorem endEventBody_inv (s : State) (h : SecOK s.sec) (hp : s.phase ≠ .advertising) :
+    Inv (endEventBody s) := by
+  unfold endEventBody
+  split
+  · exact forceDisconnect_inv _
+  · have hr := handleReceived_ok s h
+    split
+    · exact forceDisconnect_inv _
+    · rename_i s' heq
+      rw [heq] at hr
+      simp only at hr
+      exact endEventTail_inv _ (by simpa using hr.1) (by simpa [hr.2] using hp)
+
+theorem endEventEnter_ok (s : State) (h : SecOK s.sec) (hp : s.phase ≠ .advertising) :
+    SecOK (endEventEnter s).sec ∧ (endEventEnter s).phase ≠ .advertising := by
+  unfold endEventEnter
   simp only []
-  generalize hs1 : (if s.phase = .connecting then push s .established else s) = s1
-  have h1 : SecOK s1.sec ∧ s1.phase = s.phase := by subst hs1; split <;> simp [h]
-  generalize hs2 : (if s1.phase ≠ .disconnecting then { s1 with phase := .connected } else s1) = s2
-  have h2 : SecOK s2.sec ∧ s2.phase ≠ .advertising := by
-    subst hs2; split
-    · exact ⟨h1.1, by simp⟩
-    · exact ⟨h1.1, by rw [h1.2]; exact hp⟩
+  split
+  · split
+    · exact ⟨by simpa using h, by simp⟩
+    · exact ⟨by simpa using h, by simpa using hp⟩
+  · split
+    · exact ⟨h, by simp⟩
+    · exact ⟨h, hp⟩
+
+theorem endEvent_inv (s : State) (h : SecOK s.sec) (hp : s.phase ≠ .advertising) : Inv (endEvent s) := by
+  have := endEventEnter_ok s h hp
+  exact endEventBody_inv _ this.1 this.2
+
+theorem timeoutPlan_inv (s : State) (h : SecOK s.sec) (hp : s.phase ≠ .advertising) :
+    Inv (timeoutPlan s) := by
+  unfold timeoutPlan
+  have hs := handlePending_sec { s with evCounter := s.evCounter + 1, timeSince := s.timeSince + s.interval }
+  have hph := handlePending_phase { s with evCounter := s.evCounter + 1, timeSince := s.timeSince + s.interval } hp
   split
   · exact forceDisconnect_inv _
-  have h3 := handleReceived_ok s2 h2.1
-  generalize handleReceived s2 = r3 at h3
-  obtain ⟨s3, d3⟩ := r3
-  simp only
-  split
-  · exact forceDisconnect_inv _
-  split
-  · exact forceDisconnect_inv _
-  generalize hs4 : (if (sendControlPdus s3).procTimeout ≠ 0 then
-      { sendControlPdus s3 with procTimeout := (sendControlPdus s3).procTimeout - (sendControlPdus s3).timeSince }
-      else sendControlPdus s3) = s4
-  have h4 : SecOK s4.sec ∧ s4.phase ≠ .advertising := by
-    subst hs4; split
-    · exact ⟨by simpa using h3.1, by simp [h3.2, h2.2]⟩
-    · exact ⟨by simpa using h3.1, by simp [h3.2, h2.2]⟩
-  have h5 := transmitPendingSecurity_ok s4 h4.1
-  generalize transmitPendingSecurity s4 = s5 at h5
-  generalize hs6 : ({ s5 with evCounter := s5.evCounter + 1, timeSince := s5.interval } : State) = s6
-  have h6 : SecOK s6.sec ∧ s6.phase ≠ .advertising := by
-    subst hs6; exact ⟨h5.1, by simp [h5.2, h4.2]⟩
-  have h7s := handlePending_sec s6
-  have h7p := handlePending_phase s6 h6.2
-  generalize handlePending s6 = r7 at h7s h7p
-  obtain ⟨s7, d7⟩ := r7
-  simp only at h7s h7p ⊢
-  split
-  · exact forceDisconnect_inv _
-  split
-  · exact inv_of _ (by simp [h7s, h6.1]) (by simpa using h7p)
-  · exact inv_of _ (by rw [h7s]; exact h6.1) h7p
+  · rename_i s' heq
+    rw [heq] at hs hph
+    simp only at hs hph
+    exact inv_of _ (by rw [hs]; exact h) hph
 
 theorem timeoutCallback_inv (s : State) (h : SecOK s.sec) (hp : s.phase ≠ .advertising) :
     Inv (timeoutCallback s) := by
   unfold timeoutCallback
-  simp only []
   split
   · exact forceDisconnect_inv _
   split
   · exact forceDisconnect_inv _
   split
-  · generalize hs1 : ({ s with evCounter := s.evCounter + 1, timeSince := s.timeSince + s.interval } : State) = s1
-    have h1 : SecOK s1.sec ∧ s1.phase ≠ .advertising := by subst hs1; exact ⟨h, hp⟩
-    have h7s := handlePending_sec s1
-    have h7p := handlePending_phase s1 h1.2
-    generalize handlePending s1 = r7 at h7s h7p
-    obtain ⟨s7, d7⟩ := r7
-    simp only at h7s h7p ⊢
-    split
-    · exact forceDisconnect_inv _
-    · exact inv_of _ (by rw [h7s]; exact h1.1) h7p
+  · exact timeoutPlan_inv s h hp
   · exact forceDisconnect_inv _
 
 theorem radioExchange_sec (s : State) (l : List Pdu) :
